@@ -63,7 +63,43 @@ def to_rust(op):
         return 'fault %s %d' % (op[1], op[2])
     if k == 'conv':
         return 'conv %s %s' % (op[1], ref_rust(op[2]))
+    if k == 'borrow':
+        return 'borrow ' + bprog_rust(op[1])
     raise ValueError(op)
+
+
+# borrow programs: ('hc', a, c, m, k) ('hs', a, c, m) ('rel',) ('fb', q, k, [body]) ('ib', q, [body]) ('cl',) ('pn',)
+def bprog_rust(prog):
+    out = []
+    for c in prog:
+        if c[0] == 'hc':
+            out.append('hc %d %d %s %d' % (c[1], c[2], 'm' if c[3] else 's', c[4]))
+        elif c[0] == 'hs':
+            out.append('hs %d %d %s' % (c[1], c[2], 'm' if c[3] else 's'))
+        elif c[0] == 'fb':
+            out.append('fb %d %d ( %s )' % (c[1], c[2], bprog_rust(c[3])))
+        elif c[0] == 'ib':
+            out.append('ib %d ( %s )' % (c[1], bprog_rust(c[2])))
+        else:
+            out.append(c[0])
+    return ' '.join(out)
+
+
+def bprog_coq(prog):
+    out = []
+    for c in prog:
+        b = lambda x: 'true' if x else 'false'
+        if c[0] == 'hc':
+            out.append('BHc %d %d %s %d' % (c[1], c[2], b(c[3]), c[4]))
+        elif c[0] == 'hs':
+            out.append('BHs %d %d %s' % (c[1], c[2], b(c[3])))
+        elif c[0] == 'fb':
+            out.append('BFb %d %d %s' % (c[1], c[2], bprog_coq(c[3])))
+        elif c[0] == 'ib':
+            out.append('BIb %d %s' % (c[1], bprog_coq(c[2])))
+        else:
+            out.append({'rel': 'BRel', 'cl': 'BCl', 'pn': 'BPn'}[c[0]])
+    return '[%s]' % '; '.join(out)
 
 
 def N(x):
@@ -145,6 +181,8 @@ def to_coq(op):
         return 'OFault %s %s' % ('FClone' if op[1] == 'clone' else 'FDrop', N(op[2]))
     if k == 'conv':
         return 'OConv %s %s' % (kind_coq(op[1]), ref_coq(op[2]))
+    if k == 'borrow':
+        return 'OBorrow %s' % bprog_coq(op[1])
     raise ValueError(op)
 
 
